@@ -341,6 +341,88 @@ func runC03(c *runCtx) {
 			res.fail("tree-differs:"+class, "the parsed tree is not the tree the grammar prescribes", wit, map[string]any{"got": clip(got[lo:], 240), "want": clip(want[lo:], 240)})
 		}
 	}
+	// frames: a statement with a place for a query and something written after it
+	type qframe struct {
+		name, sql string
+		parts     func(st ast.Statement) (ast.Statement, string)
+	}
+	viewParts := func(st ast.Statement) (ast.Statement, string) {
+		switch v := st.(type) {
+		case *ast.CreateViewStatement:
+			return v.Query, fmt.Sprintf("view %s replace=%v temp=%v cols=%v option=%q", v.Name, v.OrReplace, v.Temporary, v.Columns, v.WithOption)
+		case *ast.CreateMaterializedViewStatement:
+			d := "default"
+			if v.WithData != nil {
+				d = fmt.Sprint(*v.WithData)
+			}
+			return v.Query, fmt.Sprintf("matview %s cols=%v data=%s tablespace=%q", v.Name, v.Columns, d, v.Tablespace)
+		case *ast.InsertStatement:
+			oc := "none"
+			if v.OnConflict != nil {
+				oc = fmt.Sprintf("target=%d action=%d", len(v.OnConflict.Target), len(v.OnConflict.Action.DoUpdate))
+			}
+			var rs []string
+			for _, r := range v.Returning {
+				rs = append(rs, realExpr(r))
+			}
+			var q ast.Statement
+			if v.Query != nil {
+				q, _ = v.Query.(ast.Statement)
+			}
+			return q, fmt.Sprintf("insert %s cols=%d values=%d returning=%v conflict=%s dup=%v", v.TableName, len(v.Columns), len(v.Values), rs, oc, v.OnDuplicateKey != nil)
+		}
+		return nil, fmt.Sprintf("%T", st)
+	}
+	qframes := []qframe{
+		{"view", "CREATE VIEW v AS {Q}", viewParts}, {"view-check-option", "CREATE VIEW v AS {Q} WITH CHECK OPTION", viewParts},
+		{"view-cascaded", "CREATE OR REPLACE VIEW v (x) AS {Q} WITH CASCADED CHECK OPTION", viewParts}, {"view-local", "CREATE VIEW v AS {Q} WITH LOCAL CHECK OPTION", viewParts},
+		{"matview", "CREATE MATERIALIZED VIEW m AS {Q}", viewParts}, {"matview-no-data", "CREATE MATERIALIZED VIEW m AS {Q} WITH NO DATA", viewParts},
+		{"matview-data", "CREATE MATERIALIZED VIEW IF NOT EXISTS m (x) AS {Q} WITH DATA", viewParts},
+		{"insert-select", "INSERT INTO x (a) {Q}", viewParts}, {"insert-select-returning", "INSERT INTO x (a) {Q} RETURNING a, b", viewParts},
+		{"insert-select-conflict", "INSERT INTO x (a) {Q} ON CONFLICT DO NOTHING", viewParts}, {"insert-select-conflict-update", "INSERT INTO x (a) {Q} ON CONFLICT (a) DO UPDATE SET a = 1 RETURNING a", viewParts},
+	}
+	frameRest := map[string]string{}
+	frameOK := map[string]bool{}
+	for _, fr := range qframes {
+		tree, err := gosqlx.Parse(strings.ReplaceAll(fr.sql, "{Q}", "SELECT a FROM t"))
+		if err != nil || len(tree.Statements) != 1 {
+			res.stat("query-frame-rejected:" + fr.name)
+			continue
+		}
+		_, rest := fr.parts(tree.Statements[0])
+		frameRest[fr.name], frameOK[fr.name] = rest, true
+		ast.ReleaseAST(tree)
+	}
+	checkInFrames := func(model *GSelect, qsql string) {
+		for _, fr := range qframes {
+			if !frameOK[fr.name] {
+				continue
+			}
+			sql := strings.ReplaceAll(fr.sql, "{Q}", qsql)
+			res.count(sql, true)
+			wit := map[string]any{"sql": sql, "query": qsql}
+			tree, err := gosqlx.Parse(sql)
+			if err != nil {
+				res.fail("rejected:query-in-frame:"+fr.name, "a query the parser reads alone is rejected inside a statement that takes a query", wit, map[string]any{"error": strings.SplitN(err.Error(), "\n", 2)[0]})
+				continue
+			}
+			if len(tree.Statements) != 1 {
+				res.fail("statement-count:query-in-frame:"+fr.name, "one statement was written", wit, map[string]any{"got": len(tree.Statements)})
+				ast.ReleaseAST(tree)
+				continue
+			}
+			inner, rest := fr.parts(tree.Statements[0])
+			got := "<no query>"
+			if inner != nil {
+				got = realStmt(inner)
+			}
+			if want := model.canon(); got != want || rest != frameRest[fr.name] {
+				res.fail("tree-differs:query-in-frame:"+fr.name, "inside an enclosing statement the query is not read as when written alone, or what follows it does not reach the enclosing statement",
+					wit, map[string]any{"query_got": clip(got, 300), "query_want": clip(want, 300), "enclosing_got": rest, "enclosing_want": frameRest[fr.name]})
+			}
+			ast.ReleaseAST(tree)
+		}
+	}
 	classOf := func(s *GSelect) string {
 		switch {
 		case s.SetOp != "":
@@ -442,12 +524,20 @@ func runC03(c *runCtx) {
 					q.OrderBy = []GOrder{{E: idn("a"), Desc: true}, {E: idn("c"), Nulls: "LAST"}}
 				}
 				if mask&32 != 0 {
-					q.Limit = 5
+					q.Limit = []int{5, 0, 1, 25}[(mask>>1)%4] // the written number, zero included
 				}
 				if mask&64 != 0 {
-					q.Offset = 3
+					q.Offset = []int{3, 0, 0, 1}[(mask>>2)%4]
 				}
 				return q
+			}
+			{
+				// the same query inside every statement that takes a query and goes on after it: the query is read as
+				// when written alone, and what follows it belongs to the enclosing statement
+				g.reset()
+				g.Plain = true
+				q := mk("t")
+				checkInFrames(q, g.renderSelect(q))
 			}
 			for _, plain := range []bool{true, false} {
 				g.reset()
